@@ -314,7 +314,7 @@ def check_c08(tier):
     t0 = time.time()
     exe = ensure_built(["c08_symbols"])["c08_symbols"]
     res = Result()
-    cases = 1000 if tier == "quick" else 30000
+    cases = 1000 if tier == "quick" else 15000
     run_shards(res, "C08", "c08_symbols", exe, "c08", tier, 16, cases)
     res.required_classes = ["scheme_tagged", "scheme_raw", "second_block", "components_4", "maxbits_25_32"]
     return finish("C08", tier, res, t0,
